@@ -69,6 +69,15 @@ type StringOpts struct {
 
 // String draws a string.
 func String(r *rand.Rand, o StringOpts) string {
+	if o.Tricky && r.IntN(60) == 0 {
+		// a long string (1.5-6 KiB), optionally with an awkward end
+		var b strings.Builder
+		for b.Len() < 1500+r.IntN(4500) {
+			b.WriteString(Ident(r))
+			b.WriteByte(" -_/."[r.IntN(5)])
+		}
+		return b.String() + Pick(r, []string{"", " ", "\n", "\n\n", "é", "\\", "$"})
+	}
 	x := r.IntN(10)
 	switch {
 	case x < 4 || (!o.Tricky && !o.Interp):
@@ -140,10 +149,26 @@ func Scalar(r *rand.Rand, o ValueOpts) *doc.Node {
 			n.IntForm = fmt.Sprintf("0x%x", n.Int)
 		case 1:
 			n.Int = int64(r.IntN(4096))
-			n.IntForm = fmt.Sprintf("0o%o", n.Int)
+			switch r.IntN(5) {
+			case 0:
+				n.IntForm = fmt.Sprintf("0o%o", n.Int)
+			case 1:
+				n.IntForm = fmt.Sprintf("0%o", n.Int) // YAML 1.1 octal: 0755
+			case 2:
+				n.IntForm = fmt.Sprintf("0b%b", n.Int)
+			case 3:
+				n.Int += 1000
+				d := fmt.Sprint(n.Int)
+				n.IntForm = d[:len(d)-3] + "_" + d[len(d)-3:] // 1_234
+			default:
+				n.IntForm = fmt.Sprintf("+%d", n.Int)
+			}
+			if n.Int == 0 {
+				n.IntForm = ""
+			}
 		case 2:
 			if !o.SmallInts {
-				n.Int = r.Int64()
+				n.Int = Pick(r, []int64{r.Int64(), 1 << 31, 1<<31 - 1, -(1 << 31), 1 << 32, 1<<53 + 1, -(1<<53 + 1), 1<<63 - 1, -1 << 63, 4294967295})
 			}
 		case 3:
 			if !o.SmallInts {
@@ -182,6 +207,9 @@ func Key(r *rand.Rand, o ValueOpts) string {
 	} else {
 		k = Ident(r)
 	}
+	if len(k) > 300 {
+		k = k[:300] // YAML limits implicit mapping keys to 1024 characters; JSON input is read as YAML
+	}
 	if o.UID != nil {
 		k = k + "_" + o.UID.Next()
 	}
@@ -190,13 +218,22 @@ func Key(r *rand.Rand, o ValueOpts) string {
 
 // Value draws an arbitrarily nested value.
 func Value(r *rand.Rand, o ValueOpts, depth int) *doc.Node {
-	if depth >= o.MaxDepth || r.IntN(3) != 0 {
+	maxDepth := o.MaxDepth
+	if depth == 0 && r.IntN(40) == 0 {
+		maxDepth += 5 // occasionally a deeply nested value
+		o.MaxDepth = maxDepth
+	}
+	if depth >= maxDepth || r.IntN(3) != 0 {
 		return Scalar(r, o)
+	}
+	big := 0
+	if r.IntN(25) == 0 {
+		big = 17 + r.IntN(60) // occasionally a long sequence / wide mapping
 	}
 	if r.IntN(2) == 0 {
 		n := doc.L()
 		n.Seq = []*doc.Node{}
-		for i, k := 0, r.IntN(4); i < k; i++ {
+		for i, k := 0, r.IntN(4)+big; i < k; i++ {
 			n.Seq = append(n.Seq, Value(r, o, depth+1))
 		}
 		return n
@@ -204,7 +241,7 @@ func Value(r *rand.Rand, o ValueOpts, depth int) *doc.Node {
 	n := doc.M()
 	n.Map = []doc.Pair{}
 	used := map[string]bool{}
-	for i, k := 0, r.IntN(5); i < k; i++ {
+	for i, k := 0, r.IntN(5)+big; i < k; i++ {
 		key := Key(r, o)
 		if used[key] {
 			continue
